@@ -35,7 +35,7 @@ class C20(Prop):
     ]
 
     def _geom(self, rng, tmax, fmax, t0, f0, tstep, fstep):
-        kind = rng.choice(["box-on", "box-off", "box-off", "interval", "poly", "mpoly", "thin", "box-out"])
+        kind = rng.choice(["box-on", "box-off", "box-off", "interval", "poly", "mpoly", "thin", "box-out", "holed"])
         T = lambda k: t0 + k * tstep
         Fq = lambda k: f0 + k * fstep
         if kind in ("box-on", "box-off", "box-out"):
@@ -53,8 +53,20 @@ class C20(Prop):
             i0, i1 = sorted([rng.randint(0, tmax), rng.randint(0, tmax)])
             a, b = sorted([T(i0) + Fraction(rng.choice([0, 1, 2]), 4) * tstep, T(i1) + Fraction(rng.choice([0, 1, 3]), 4) * tstep])
             return {"type": "TimeInterval", "coordinates": [a, b]}
+        if kind == "holed":
+            # a frame: rectangular shell with a rectangular hole of at least one bin, as a polygon or the only part of a multipolygon
+            q = lambda k: Fraction(rng.choice([0, 1, 2]), 4)
+            i0, i1 = 0, max(3, tmax)
+            j0, j1 = 0, max(3, fmax)
+            hi0 = rng.randint(1, max(1, i1 - 2))
+            hi1 = rng.randint(hi0 + 1, max(hi0 + 1, i1 - 1))
+            hj0 = rng.randint(1, max(1, j1 - 2))
+            hj1 = rng.randint(hj0 + 1, max(hj0 + 1, j1 - 1))
+            rect = lambda a, b, cc, d: [[T(a), Fq(b)], [T(cc), Fq(b)], [T(cc), Fq(d)], [T(a), Fq(d)], [T(a), Fq(b)]]
+            rings = [rect(i0, j0, i1, j1), rect(hi0, hj0, hi1, hj1)]
+            return {"type": "Polygon", "coordinates": rings} if rng.random() < 0.4 else {"type": "MultiPolygon", "coordinates": [rings]}
         if kind in ("poly", "mpoly"):
-            g = G.rgeom(rng, "Polygon" if kind == "poly" else "MultiPolygon", tmax=8, fmax=32)
+            g = G.rgeom(rng, "Polygon" if kind == "poly" else "MultiPolygon", tmax=8, fmax=32, holes=rng.random() < 0.5)
             # rescale into the template's extent
             def sc(p):
                 return [t0 + p[0] * tstep * tmax / 10, f0 + p[1] * fstep * fmax / 40]
@@ -227,6 +239,39 @@ class C20(Prop):
             if grid != want:
                 diff = [(i, j) for i in range(c["nt"]) for j in range(c["nf"]) if grid[i][j] != want[i][j]]
                 fail("box-cells", f"{len(diff)} cells differ from 'bins from the one containing the start (incl.) to the one containing the end (excl.)', e.g. {diff[:3]}")
+        # polygons (holes included), one geometry, centre rule: the vertices are mapped to bin indices and the shape is burnt in
+        # index space; a cell whose centre lies strictly inside that shape is marked, one strictly outside keeps the fill value
+        # (cells whose centre is on the outline are not judged: GDAL's tie rule is a library contract)
+        if not c["all_touched"] and n == 1 and o["norm"][0]["type"] in ("Polygon", "MultiPolygon") and vals[0] != fill:
+            import shapely
+            from shapely.geometry import Point as _P, Polygon as _Poly
+
+            g = o["norm"][0]
+            polys = [g["coordinates"]] if g["type"] == "Polygon" else g["coordinates"]
+            shapes = []
+            for rings in polys:
+                idx = [[(binidx(tc, p[0]), binidx(fc, p[1])) for p in ring] for ring in rings]
+                try:
+                    shp = _Poly(idx[0], idx[1:])
+                except Exception:
+                    shp = None
+                if shp is None or not shp.is_valid or shp.area == 0:
+                    shapes = None
+                    break
+                shapes.append(shp)
+            if shapes:
+                u = shapely.union_all(shapes)
+                wrong = []
+                for i in range(c["nt"]):
+                    for j in range(c["nf"]):
+                        ctr = _P(i + 0.5, j + 0.5)
+                        if u.boundary.distance(ctr) < 1e-9:
+                            continue
+                        inside = u.contains(ctr)
+                        if inside != (grid[i][j] != fill):
+                            wrong.append((i, j, inside))
+                if wrong:
+                    fail("polygon-cells", f"{len(wrong)} cells disagree with 'centre inside the polygon (holes excluded)', e.g. {wrong[:3]}", gtype=g["type"])
         allowed = set(vals) | {fill}
         if any(x not in allowed for row in grid for x in row):
             fail("foreign-value", "a cell holds a value that is neither a geometry's value nor the fill value")
